@@ -181,6 +181,14 @@ func (c *Conn) mysqlErr(e *sqlErr) error {
 	return &mysql.MySQLError{Number: uint16(e.num), Message: e.msg}
 }
 
+// Kill makes the connection die now (process crash / network cut): an open
+// transaction is rolled back, a prepared XA branch survives detached.
+func (c *Conn) Kill() {
+	c.srv.mu.Lock()
+	defer c.srv.mu.Unlock()
+	c.kill()
+}
+
 func (c *Conn) kill() {
 	// connection dies: open transaction rolled back, prepared XA survives
 	if c.txn != nil {
